@@ -38,12 +38,95 @@ def ora(f):
         return 'nothing'
 
 
+def args_of(req):
+    p = req.split(' ')
+    return p[0], dict(kv.split('=') for kv in p[1:])
+
+
+def ints(s):
+    return [] if s == '[]' else [int(x) for x in s.split(',')]
+
+
+# ---- known-finding input classes (decided from the request alone) ---------------------------------------------
+def _dim(a):
+    return len(ints(a['shape']))
+
+
+def k_transpose_invalid_axes(c):
+    op, a = args_of(c.req)
+    if op != 'transpose':
+        return False
+    d = _dim(a); ax = ints(a['axes'])
+    if any(x < -d or x >= d for x in ax):
+        return True
+    return len({x % d for x in ax}) != d
+
+
+def k_swapaxes_invalid_axis(c):
+    op, a = args_of(c.req)
+    return op == 'swapaxes' and any(int(a[k]) < -_dim(a) or int(a[k]) >= _dim(a) for k in ('a1', 'a2'))
+
+
+def k_expand_dims_invalid_axis(c):
+    op, a = args_of(c.req)
+    return op == 'expand_dims' and any(x < -_dim(a) - 1 or x > _dim(a) for x in ints(a['axes']))
+
+
+def k_sum_invalid_axis(c):
+    op, a = args_of(c.req)
+    return op == 'sum' and (int(a['axis']) < -_dim(a) or int(a['axis']) >= _dim(a))
+
+
+def k_repeat_negative_or_invalid_axis(c):
+    op, a = args_of(c.req)
+    return op == 'repeat' and (int(a['axis']) < 0 or int(a['axis']) >= _dim(a))
+
+
+def k_concatenate_unchecked(c):
+    op, a = args_of(c.req)
+    if op != 'concatenate':
+        return False
+    s1, s2, ax = ints(a['shape']), ints(a['shape2']), int(a['axis'])
+    if ax < 0 or ax >= len(s1) or len(s1) != len(s2):
+        return True
+    return any(s1[k] != s2[k] for k in range(len(s1)) if k != ax)
+
+
+def k_matmul_unchecked(c):
+    op, a = args_of(c.req)
+    if op != 'matmul':
+        return False
+    s1, s2 = ints(a['shape']), ints(a['shape2'])
+    return len(s1) == 1 or len(s2) == 1 or c.oracle == 'nothing'
+
+
+KNOWN_PREDICATES = {
+    'transpose_invalid_axes': k_transpose_invalid_axes, 'swapaxes_invalid_axis': k_swapaxes_invalid_axis,
+    'expand_dims_invalid_axis': k_expand_dims_invalid_axis, 'sum_invalid_axis': k_sum_invalid_axis,
+    'repeat_negative_or_invalid_axis': k_repeat_negative_or_invalid_axis, 'concatenate_unchecked': k_concatenate_unchecked,
+    'matmul_unchecked': k_matmul_unchecked,
+}
+_san_budget = {}
+
+
 def both(req, oracle, tags, nontrivial=True, model=False, dom=True):
-    for h in ('h_c15', 'h_c15_san'):
-        yield Case(req, h, oracle=oracle, model=model, dom=dom, nontrivial=nontrivial, tags=list(tags) + [h, 'expect-nothing' if oracle == 'nothing' else 'expect-value'])
+    c0 = Case(req, 'h_c15', oracle=oracle, model=model, dom=dom, nontrivial=nontrivial,
+              tags=list(tags) + ['h_c15', 'expect-nothing' if oracle == 'nothing' else 'expect-value'])
+    yield c0
+    # sanitizer + assert build: every case outside the known-defect classes; inside them a bounded sample per class
+    # (each of those aborts the process; 15 per class keeps the quick tier fast)
+    cls = [k for k, f in KNOWN_PREDICATES.items() if f(c0)]
+    if cls:
+        n = _san_budget.get(cls[0], 0)
+        if n >= 15:
+            return
+        _san_budget[cls[0]] = n + 1
+    yield Case(req, 'h_c15_san', oracle=oracle, model=model, dom=dom, nontrivial=nontrivial,
+               tags=list(tags) + ['h_c15_san', 'expect-nothing' if oracle == 'nothing' else 'expect-value'])
 
 
 def gen(tier, rng):
+    _san_budget.clear()
     R, E = (3, 3) if tier == 'quick' else (3, 4)
     srcs = [s for s in shapes(R, E, min_rank=1)]
     small = [s for s in srcs if prod(s) <= 12] if tier == 'quick' else srcs
@@ -55,7 +138,7 @@ def gen(tier, rng):
             for t in itertools.product(ents, repeat=L):
                 if tier == 'quick' and L == 3 and (hash((tuple(s), t)) % 3):
                     continue
-                yield from both('reshape shape=%s to=%s' % (fmt(s), fmt(t)), ora(lambda: arr(s).reshape(t)), ['reshape'])
+                yield from both('reshape shape=%s to=%s' % (fmt(s), fmt(t)), 'nothing' if any(x < -1 for x in t) else ora(lambda: arr(s).reshape(t)), ['reshape'])
     for s in pick(srcs, 14 if tier == 'quick' else 60):
         d = len(s)
         # transpose: all axis tuples of length d over [-d-1, d]
